@@ -29,9 +29,10 @@ out = {
     "not_applicable": [],
 }
 bins = {}
+ready = set(json.load(open(os.path.join(V, "ready.json"))))
 for p in props:
     pid = p["id"]
-    c = checks.get(pid)
+    c = checks.get(pid) if pid in ready else None
     if not c:
         out["not_applicable"].append({"property_id": pid, "reason": na_reasons.get(pid, "no check built yet for this property (machinery under construction)")})
         continue
